@@ -3,7 +3,7 @@ outlives them (engine P). Executes an explicit history and evaluates the oracles
 import os
 import pickle
 
-from ..core.util import HarnessError, sha
+from ..core.util import DiscardCase, HarnessError, sha
 from ..storesim.values import canon
 from . import gen, ir
 from .cone import Cones
@@ -17,6 +17,7 @@ class World:
         self.root = root
         self.versions = [case["prog"]]      # IR snapshots; index = version
         self.cur = 0
+        self._valid = set()
         self.edit_versions = [0]             # indices of the versions created by edit / revert operations
         self.srcdirs = {}
         self.procs = {}                      # pid -> dict(proc, ver, store, mutations, inst)
@@ -90,6 +91,7 @@ class World:
         if self.case.get("late_accept"):
             acc = acc[1:]          # the program's own package is accepted later by an explicit "accept" operation
             info["accepted"] = False
+        self._validate_version(self.cur)
         p.call({"cmd": "init", "srcdir": self.srcdir(self.cur), "accept": acc,
                 "store": self.full_store_spec(info["store"]), "modules": mods,
                 "options": self.case.get("options", []), "cwd": self.case.get("cwd"), "location": loc,
@@ -98,6 +100,19 @@ class World:
                 "main_file": os.path.join(self.srcdir(self.cur), *(prog["pkg"] + [prog["mods"][0] + ".py"]))})
         self.procs[pid] = info
         return info
+
+    def _validate_version(self, ver):
+        """A version must import under plain Python (with the dds-free shim) before dds sees it."""
+        if ver in self._valid:
+            return
+        prog = self.versions[ver]
+        try:
+            ref_eval(self.srcdir(ver), [], modules=[ir.modname(prog, m) for m in prog["mods"]])
+        except HarnessError as e:
+            if "ImportError" in str(e) or "SyntaxError" in str(e) or "NameError" in str(e):
+                raise DiscardCase(f"generated program version {ver} does not import under plain Python: {str(e)[:300]}")
+            raise
+        self._valid.add(ver)
 
     def restart(self, pid):
         if pid in self.procs:
